@@ -150,7 +150,8 @@ struct VfRun {
   int odd_links() const { int n = 0; for (int i = 0; i < sr.nlinks; i++) if (sr.ps.links[i]->len & 1) n++; return n; }
   void oracle_seek(Handle &H, const Rec &op, const std::string &kind, long ret, int64_t t0, int64_t t1, bool lap);
   void oracle_open(Handle &H, long ret);
-  void link_table(Handle &H, const char *site);
+  void link_table(Handle &H, const char *site, std::initializer_list<const char *> P = {"C09"}, bool force = false);
+  std::vector<IoFault> parse_fault_str(const std::string &s);
   static float filter_gain(const Rec &op) { return op.s("kind") == "read_filter" ? (float)op.f("gain", 0.5) : 1.f; }
   void expected_int(const float *const *chan, int nch, int64_t off, int frames, int word, int sgned, int be, std::vector<uint8_t> &lo, std::vector<uint8_t> &hi, float gain = 1.f);
   void finish(Handle &H, bool twice);
@@ -164,8 +165,9 @@ struct VfRun {
   void drain_compare(Handle &H, int64_t want);
 };
 
-std::vector<IoFault> VfRun::parse_faults(const Rec &op) {
-  std::vector<IoFault> v; std::string s = op.s("fault");
+std::vector<IoFault> VfRun::parse_faults(const Rec &op) { return parse_fault_str(op.s("fault")); }
+std::vector<IoFault> VfRun::parse_fault_str(const std::string &s) {
+  std::vector<IoFault> v;
   if (s.empty()) return v;
   // KIND@ord  | KIND@ord:p (persist until heal) | KIND@ord:N (N calls)
   auto at = s.find('@'); if (at == std::string::npos) return v;
@@ -418,9 +420,8 @@ void VfRun::oracle_open(Handle &H, long ret) {
 
 // C09: the link table (count, and per link: channels, rate, serial number, length, comments, duration; the totals). Asked right after the open, and
 // again whenever a linear read enters another link and at every "info" op: what is reported for link i does not depend on where the decoder is.
-void VfRun::link_table(Handle &H, const char *site) {
-  std::initializer_list<const char *> P = {"C09"};
-  if (inexact() || H.io_dirty || H.part || !H.open || !H.seekable) return;
+void VfRun::link_table(Handle &H, const char *site, std::initializer_list<const char *> P, bool force) {
+  if (inexact() || (H.io_dirty && !force) || H.part || !H.open || !H.seekable) return;
   g_stats.inc(std::string("probe.link_table_checked_at_") + site);
   long k = ov_streams(H.vf);
   check(k == sr.nlinks, P, "open", "link-count", fmt("ov_streams=%ld want %d", k, sr.nlinks), {{"got", std::to_string(k)}, {"want", std::to_string(sr.nlinks)}});
